@@ -239,6 +239,35 @@ PartTensor(P, C, cs, part, pk) ==
            ELSE IF sub.map = "covariantPiola" THEN (IF Len(dv) = 0 THEN Cov0 ELSE Cov1(dv[1] + 1))
            ELSE (IF Len(dv) = 0 THEN Con0 ELSE Con1(dv[1] + 1))       \* contravariantPiola
       Side(r) == IF r = "-" THEN 2 ELSE 1
+      \* ------------------------------------------------------------------
+      \* geometric cell / facet quantities of degree-1 cells, from the vertex coordinates alone
+      nvert == Len(RefVerts(cell))
+      Dist2(s, a, b) == LET F(c) == LET df == RSub(XD(s, a, c), XD(s, b, c)) IN RMul(df, df) IN RSumTo(F, gd)
+      VPairs == {p \in (1..nvert) \X (1..nvert) : p[1] < p[2]}
+      EPairs == {<<Edges(cell)[e][1], Edges(cell)[e][2]>> : e \in 1..Len(Edges(cell))}
+      MaxD2(s, S) == CHOOSE m \in {Dist2(s, p[1], p[2]) : p \in S} : \A p \in S : RLe(Dist2(s, p[1], p[2]), m)
+      MinD2(s, S) == CHOOSE m \in {Dist2(s, p[1], p[2]) : p \in S} : \A p \in S : RLe(m, Dist2(s, p[1], p[2]))
+      RefVol == CASE cell = "triangle" -> <<1, 2>> [] cell = "tetrahedron" -> <<1, 6>> [] OTHER -> One
+      FacetVerts(s) == Facets(cell)[C.ent[s] + 1]
+      Geo2(g, s) ==        \* the square of the quantity where it is a square root, else the quantity itself
+        CASE g = "diameter" -> MaxD2(s, VPairs)
+          [] g = "maxedge" -> MaxD2(s, EPairs)
+          [] g = "minedge" -> MinD2(s, EPairs)
+          [] g = "facetarea" -> IF td = 2 THEN Dist2(s, FacetVerts(s)[1], FacetVerts(s)[2]) ELSE One
+          [] g = "circumradius" ->
+               IF td = 1 THEN RDiv(Dist2(s, 1, 2), <<4, 1>>)
+               ELSE \* triangle: R = a b c / (4 area), area = |det J| / 2  =>  R^2 = a2 b2 c2 / (4 detJ^2)
+                    RDiv(RMul(RMul(Dist2(s, 1, 2), Dist2(s, 1, 3)), Dist2(s, 2, 3)),
+                         RMul(<<4, 1>>, RMul(DetJ[s][1], DetJ[s][1])))
+          [] OTHER -> One
+      GeoIsRoot(g) == g \in {"diameter", "maxedge", "minedge", "facetarea", "circumradius"}
+      Geo(g, s) == IF g = "volume" THEN RMul(RAbs(DetJ[s][1]), RefVol)
+                   ELSE IF GeoIsRoot(g) THEN RSqrt(Geo2(g, s)) ELSE One
+      GeoOk == \A k \in 1..Len(part.geos) :
+                 LET g == part.geos[k][1]  s == Side(part.geos[k][2])
+                 IN /\ (g = "circumradius" => td \in {1, 2} /\ cell \in {"interval", "triangle"})
+                    /\ (g = "facetarea" => td \in {1, 2})
+                    /\ (GeoIsRoot(g) => RIsSquare(Geo2(g, s)))
       \* argument leaves: value for macro dof i (0-based over [+ side dofs, - side dofs])
       ArgDim(n) == P.spaces[P.args[n + 1]].dim
       ArgLeaf(lf, q, i, ab) ==
@@ -307,6 +336,7 @@ PartTensor(P, C, cs, part, pk) ==
           [] t.t = "const" -> <<RInt(cs.c[t.k + 1][t.c + 1][1]), RInt(cs.c[t.k + 1][t.c + 1][2])>>
           [] t.t = "x" -> CReal(Xphys[Side(t.r)][q][t.c + 1])
           [] t.t = "n" -> CReal(NormalF[Side(t.r)][q][t.c + 1])
+          [] t.t = "geo" -> CReal(Geo(t.g, Side(t.r)))
           [] t.t = "detJ" -> CReal(DetJ[Side(t.r)][q])
           [] t.t = "J" -> CReal(Jac[Side(t.r)][q][t.c + 1][t.k + 1])
           [] t.t = "K" -> CReal(Kinv[Side(t.r)][q][t.c + 1][t.k + 1])
@@ -335,6 +365,7 @@ PartTensor(P, C, cs, part, pk) ==
                               F(n) == RAbs(RMul(XD(s, n, t.c + 1), R(xtab[s][1][q][n][1])))
                           IN Up(RSumTo(F, nxn))
           [] t.t = "n" -> One
+          [] t.t = "geo" -> MAdd(One, Geo(t.g, Side(t.r)))
           [] t.t = "detJ" -> PJ[Side(t.r)][q]
           [] t.t = "J" -> JacM[Side(t.r)][q][t.c + 1][t.k + 1]
           [] t.t = "K" -> KbM[Side(t.r)][q]
@@ -361,6 +392,7 @@ PartTensor(P, C, cs, part, pk) ==
                  /\ NeedsNormal => \A s \in 1..nsides, q \in 1..NQ : NormalOk(s, q)
                  /\ \A s \in 1..nsides, q \in 1..NQ : DetJ[s][q][1] # 0
                  /\ part.has_cond => \A q \in 1..NQ : ~Knife(part.tree, q)
+                 /\ GeoOk
       WQ == [q \in 1..NQ |-> RMul(R(part.wts[q]), Scale(q))]
       WQM == [q \in 1..NQ |-> Up(RMul(RAbs(R(part.wts[q])),
                 IF itype = "expression" THEN One
